@@ -1,5 +1,5 @@
 """Per-property correspondence plugins. Each returns a Result."""
-import collections, json, os, re, resource, shutil, subprocess, time
+import collections, glob, json, os, re, resource, shutil, subprocess, time
 from concurrent.futures import ThreadPoolExecutor
 import common as C
 
@@ -89,19 +89,22 @@ def case_text(trace, case_id, upto_op=None):
     return "\n".join(out) + "\n"
 
 
-def run_sharded(ctx, sub, shards, args_of, timeout, oracle_mode=None, more_modes=()):
+def run_sharded(ctx, sub, shards, args_of, timeout, oracle_mode=None, more_modes=(), exe=None, env=None, post=None, tag=""):
     """Run harness subcommand `sub` in parallel shards -> trace files; then the oracle on each. Returns list of
     (trace path, oracle output)."""
     def one(i):
-        trace = os.path.join(ctx.dir, "%s.%d.trace" % (sub, i))
-        sdir = os.path.join(ctx.dir, "d%d" % i)
+        trace = os.path.join(ctx.dir, "%s%s.%d.trace" % (sub, tag, i))
+        sdir = os.path.join(ctx.dir, "d%s%d" % (tag, i))
         os.makedirs(sdir, exist_ok=True)
-        cmd = [C.harness_exe(), sub, "-out", trace, "-tier", ctx.tier] + [a.replace("{dir}", sdir) for a in args_of(i)]
+        cmd = [exe or C.harness_exe(), sub, "-out", trace, "-tier", ctx.tier] + [a.replace("{dir}", sdir) for a in args_of(i)]
         try:
-            p = subprocess.run(cmd, stdout=subprocess.PIPE, stderr=subprocess.STDOUT, text=True, timeout=timeout, errors="replace")
+            p = subprocess.run(cmd, stdout=subprocess.PIPE, stderr=subprocess.STDOUT, text=True, timeout=timeout, errors="replace",
+                               env=(dict(os.environ, **{k: v.replace("{dir}", sdir) for k, v in env.items()}) if env else None))
             hout, hrc = p.stdout, p.returncode
         except subprocess.TimeoutExpired as e:
             hout, hrc = "harness timeout: " + str(e), 124
+        if post:
+            post(i, trace, sdir)
         try:
             q = subprocess.run([C.oracle_exe(), oracle_mode or sub, trace], stdout=subprocess.PIPE, stderr=subprocess.STDOUT, text=True, timeout=timeout, errors="replace", preexec_fn=_big_stack)
             oout, orc = q.stdout, q.returncode
@@ -120,6 +123,12 @@ def run_sharded(ctx, sub, shards, args_of, timeout, oracle_mode=None, more_modes
         for outs in ex.map(one, range(shards)):
             res.extend(outs)
         return res
+
+
+def rejudge(mode, path):
+    """--replay for checks whose cases are schedules of the Go runtime: the replay file holds the case's observations; the oracle judges them again"""
+    q = subprocess.run([C.oracle_exe(), mode, path], stdout=subprocess.PIPE, stderr=subprocess.STDOUT, text=True, timeout=600, errors="replace", preexec_fn=_big_stack)
+    return [(path, 0, "", q.returncode, q.stdout)]
 
 
 def absorb(res, pid, trace, hrc, hout, orc, oout, max_detail=5):
@@ -483,7 +492,7 @@ def c16(ctx):
     res.rule = "one case = one batch scenario (callers, scripts, batch size, delay); distinct by MD5 of these; non-trivial if some call failed or panicked; evaluations = callers judged"
     with ctx:
         quick = ctx.tier == "quick" or ctx.budget_s
-        runs = run_sharded(ctx, "c16", 8 if ctx.tier == "quick" else 16, lambda i: ["-seed", str(ctx.seed * 1000 + i), "-n", "300" if quick else "6000", "-dir", "{dir}"], ctx.budget_s or (900 if ctx.tier == "quick" else 3000))
+        runs = rejudge("c16", ctx.replay) if ctx.replay else run_sharded(ctx, "c16", 8 if ctx.tier == "quick" else 16, lambda i: ["-seed", str(ctx.seed * 1000 + i), "-n", "300" if quick else "6000", "-dir", "{dir}"], ctx.budget_s or (900 if ctx.tier == "quick" else 3000))
         for r in runs:
             absorb(res, "C16", *r)
     return res
@@ -499,10 +508,49 @@ def c17(ctx):
     res.rule = "one case = one open/close sequence + one read-only session + CLI commands on a fresh database; distinct by MD5 of the operation list; non-trivial if it holds a lock grant, a refusal or a memory probe (every generated case does; refusals are counted in the distribution); evaluations = results judged"
     with ctx:
         quick = ctx.tier == "quick" or ctx.budget_s
-        runs = run_sharded(ctx, "c17", 8 if ctx.tier == "quick" else 16, lambda i: ["-seed", str(ctx.seed * 1000 + i), "-n", "40" if quick else "600", "-dir", "{dir}"], ctx.budget_s or (900 if ctx.tier == "quick" else 3000))
+        runs = rejudge("c17", ctx.replay) if ctx.replay else run_sharded(ctx, "c17", 8 if ctx.tier == "quick" else 16, lambda i: ["-seed", str(ctx.seed * 1000 + i), "-n", "40" if quick else "600", "-dir", "{dir}"], ctx.budget_s or (900 if ctx.tier == "quick" else 3000))
         for r in runs:
             absorb(res, "C17", *r)
     return res
 
 
-PLUGINS = {"C17": c17, "C16": c16, "C19": c19, "C01": c01, "C20": c20, "C14": c14, "C18": c18, "C15": c15, "C13": c13, "C08": c08, "C11": c11, "C02": c02, "C06": c06, "C10": c10, "C05": c05, "C09": c09, "C04": c04, "C07": c07, "C12": c12}
+def c03(ctx):
+    """C03 serial write transactions: (det) 2-5 threads with programs of read-modify-write transactions ending in commit / error / panic / rollback (Update and manual Begin) and read transactions
+    are driven step by step along a generated schedule at the granularity of Conc.v (lock, read meta, body, finish, unlock / snapshot, observe); Conc.crun predicts the log (thread, id, kind, state
+    read, state written) and the final meta exactly (K). (free) 2-12 goroutines run 4-19 such calls each (Update commit/error/panic, manual Begin/Commit/Rollback, View, manual read, Batch with
+    retries, Stats, one goroutine may Close under load), with yields injected at bbolt's I/O points; the merged log is judged by the extracted Conc.serial_ok (S), plus all-or-nothing and durability
+    against the final reopened state, per-goroutine real-time visibility, overlapping bodies (single writer) and a 30 s progress watchdog. (race) the free cases again in a harness built with
+    -race: any report of the Go race detector is a failure (rule=race_free)."""
+    res = Result()
+    res.rule = ("one case = one schedule (det) or one set of goroutine programs (free); distinct by MD5 of programs+schedule (det) or of the per-goroutine call lists (free); non-trivial if it has a "
+                "failing/panicking/rolled-back transaction, a reader, a batch or a close under load; evaluations = transaction records judged")
+    with ctx:
+        quick = ctx.tier == "quick" or ctx.budget_s
+        if ctx.replay:
+            runs = rejudge("c03", ctx.replay)
+        else:
+            runs = run_sharded(ctx, "c03", 8 if ctx.tier == "quick" else 16, lambda i: ["-seed", str(ctx.seed * 1000 + i), "-n", "250" if quick else "5000", "-dir", "{dir}"], ctx.budget_s or (900 if ctx.tier == "quick" else 3000))
+            ok, out = C.build_harness_race()
+            if not ok:
+                res.mismatches.append({"line": "race-enabled harness does not build: " + out[-600:]})
+            else:
+                def post(i, trace, sdir):
+                    reports = []
+                    for f in sorted(glob.glob(os.path.join(sdir, "race.*"))):
+                        reports.append(open(f, errors="replace").read())
+                    if reports:
+                        txt = "\n".join(reports)
+                        with open(trace, "a") as t:
+                            t.write("case race%d free race=true\n" % i)
+                            for l in txt.splitlines()[:400]:
+                                t.write("# " + l + "\n")
+                            t.write("hang DATA-RACE reported by the Go race detector (%d reports, seed %d)\nend\n" % (txt.count("WARNING: DATA RACE"), ctx.seed * 1000 + 500 + i))
+                runs += run_sharded(ctx, "c03", 4 if ctx.tier == "quick" else 8, lambda i: ["-seed", str(ctx.seed * 1000 + 500 + i), "-n", "40" if quick else "1500", "-mode", "free", "-dir", "{dir}"],
+                                    ctx.budget_s or (900 if ctx.tier == "quick" else 3000), exe=C.harness_race_exe(), env={"GORACE": "log_path={dir}/race halt_on_error=0"}, post=post, tag="race")
+                res.extra["race_detector"] = "free cases re-run in a -race build; GORACE log_path collected per shard"
+        for r in runs:
+            absorb(res, "C03", *r)
+    return res
+
+
+PLUGINS = {"C03": c03, "C17": c17, "C16": c16, "C19": c19, "C01": c01, "C20": c20, "C14": c14, "C18": c18, "C15": c15, "C13": c13, "C08": c08, "C11": c11, "C02": c02, "C06": c06, "C10": c10, "C05": c05, "C09": c09, "C04": c04, "C07": c07, "C12": c12}
